@@ -8,4 +8,4 @@ def run(tier):
         "element sequences (ints, bools, mixed) x source (array-derived, user-written logging closure) x pipelines of "
         "<= 2 lazy stages (@ f, ? p, ? T) x consumer ($] \\\\ $init $+ $* $& $| $&& $|| for, manual calls past "
         "exhaustion); compared: result and the log of pulls and callback applications",
-        ["the value carried by an exhausted iterator is unspecified (docs/iterators.md) and not compared"])
+        ["the value carried by an exhausted iterator is unspecified (docs/iterators.md) and not compared"], gen=3000)
